@@ -20,6 +20,8 @@ func numOf(v interface{}) (float64, bool, bool) { // value, isNumber, isIntegerK
 		return float64(x), true, true
 	case uint8:
 		return float64(x), true, true
+	case uint16:
+		return float64(x), true, true
 	case uint64:
 		return float64(x), true, true
 	case float64:
@@ -107,7 +109,7 @@ func refSimpleScalar(typ, format string, cv *spec.CommonValidations, v interface
 func refSimple(typ, format string, cv *spec.CommonValidations, items *spec.Items, v interface{}) bool {
 	if typ != "array" {
 		switch v.(type) {
-		case []string, []int64, []float64, [][]string, []interface{}:
+		case []string, []int64, []uint16, []float64, [][]string, []interface{}:
 			return false
 		}
 		return refSimpleScalar(typ, format, cv, v)
@@ -121,6 +123,10 @@ func refSimple(typ, format string, cv *spec.CommonValidations, items *spec.Items
 			elems = append(elems, e)
 		}
 	case []int64:
+		for _, e := range x {
+			elems = append(elems, e)
+		}
+	case []uint16:
 		for _, e := range x {
 			elems = append(elems, e)
 		}
@@ -172,6 +178,12 @@ func refTypedEqual(a, b interface{}) bool {
 			return false
 		}
 		return x == y
+	case uint16:
+		y, ok := b.(uint16)
+		if !ok {
+			return false
+		}
+		return x == y
 	case float64:
 		y, ok := b.(float64)
 		if !ok {
@@ -199,10 +211,10 @@ func genCV(typ string) spec.CommonValidations {
 	case "integer", "number":
 		switch verifChoose(5) {
 		case 1:
-			cv.Maximum = ptrF(verifPickFloat(1, 2))
+			cv.Maximum = ptrF(verifPickFloat(0, 1, 2))
 			cv.ExclusiveMaximum = verifBool()
 		case 2:
-			cv.Minimum = ptrF(verifPickFloat(1, 2))
+			cv.Minimum = ptrF(verifPickFloat(0, 1, 2))
 			cv.ExclusiveMinimum = verifBool()
 		case 3:
 			cv.MultipleOf = ptrF(2)
@@ -273,6 +285,9 @@ func genTypedValue(typ string) interface{} {
 		case 3:
 			return float64(small) + 0.5
 		default:
+			if verifBool() {
+				return uint16(small)
+			}
 			return "1"
 		}
 	case "string":
@@ -320,6 +335,13 @@ func genTypedSlice(items *spec.Items) interface{} {
 		return out
 	}
 	if items != nil && items.Type == "integer" && verifBool() {
+		if verifBool() {
+			out := make([]uint16, 0, n)
+			for i := 0; i < n; i++ {
+				out = append(out, uint16(verifPickInt(0, 1, 2, 3)))
+			}
+			return out
+		}
 		out := make([]int64, 0, n)
 		for i := 0; i < n; i++ {
 			out = append(out, verifPickInt(0, 1, 2, 3))
